@@ -31,6 +31,8 @@ type genCase struct {
 	Lazy bool `json:"lazy,omitempty"`
 	// FieldN: the int member of the %union carries this name instead of n (Go variants)
 	FieldN string `json:"field_n,omitempty"`
+	// InfFirst: the TypeScript lexer gives the first token the number Infinity (see gen.Decorated.InfFirst)
+	InfFirst bool `json:"inf_first,omitempty"`
 }
 
 func genDepth(w *Worker) int {
@@ -420,6 +422,21 @@ func genPhase(w *Worker, id string) {
 			}
 		}
 		corpus = append(corpus, lazy...)
+		// one action text (`$$ = $1`) under different value tags: nonterminals alternately int and string
+		var mixed []*genCase
+		for _, c := range corpus {
+			if strings.HasPrefix(c.Origin, "family:") && c.Tags == nil && c.Shape == gen.UseAll && !c.Renumber {
+				t := gen.Tags{}
+				for i, x := range c.Spec.Nonterminals() {
+					t[x] = []string{"n", "s"}[i%2]
+				}
+				for _, x := range c.Spec.Terminals() {
+					t[x] = "s"
+				}
+				mixed = append(mixed, &genCase{Origin: c.Origin + " [one action text under different tags]", Spec: c.Spec, Tags: t, Shape: gen.PlainCopy})
+			}
+		}
+		corpus = append(corpus, mixed...)
 	}
 	if id == "C07" || id == "C17" || id == "C08" || id == "C01" || id == "C06" {
 		// the family grammars once more with a nested parse inside every action: what the outer
@@ -477,6 +494,7 @@ func genBatch(w *Worker, id string, cases []*genCase, name string) {
 		d.Nested = c.Nested
 		d.Lazy = c.Lazy
 		d.FieldN = c.FieldN
+		d.InfFirst = c.InfFirst
 		o := &obs{c: c, g: g, d: d, runs: map[string][]*rt.Result{}, dumps: map[string][][]int{}, items: map[string]*gen.Item{}}
 		// the model comes from an in-process build of the same text
 		res := ygo.Build(d.Source(gen.Go, "model"), ygo.Options{Fuel: buildFuel})
@@ -751,8 +769,8 @@ func genJudge(w *Worker, id string, o *obs, variants []string) {
 			w.Count("gen_runs", 1)
 			// conformance with the model (binding, not a verdict)
 			var p rt.Result
-			if o.loose {
-				p = *r
+			if o.loose || (o.d.InfFirst && v == gen.TS) {
+				p = *r // no model run: judged below without it
 			} else {
 				p = o.predict(m, in)
 			}
@@ -809,6 +827,13 @@ func genJudge(w *Worker, id string, o *obs, variants []string) {
 					}
 				}
 			case "C07":
+				if o.d.InfFirst && v == gen.TS {
+					// the first token's number is Infinity and reaches the result through every action: NaN, reported as 0
+					if r.Class == "accept" && len(in) > 0 && (r.N != 0 || r.S != "") {
+						bad("wrong-value", v, in, fmt.Sprintf("the lexer gave the first token the number Infinity, which every action passes on: the result must be not-a-number (reported as 0); the parser returns n=%d s=%q, so the token's value was replaced on the way", r.N, r.S), nil)
+					}
+					continue
+				}
 				if r.Class == "accept" && o.d.Shape == gen.PlainCopy {
 					// these actions do not record reductions (so that many rules share one action text):
 					// the expected value comes from the model's derivation (validated by C01)
